@@ -557,7 +557,11 @@ pub fn fuzz_part() -> CustomPart {
             let outcomes: std::sync::Mutex<Vec<(usize, serde_json::Value, Vec<Vec<u8>>)>> = std::sync::Mutex::new(Vec::new());
             let passed: std::sync::Mutex<Vec<u64>> = std::sync::Mutex::new(Vec::new());
             std::thread::scope(|sc| {
+                let only = std::env::var("NV_FUZZ_ONLY").ok();
                 for (ti, t) in TARGETS.iter().enumerate() {
+                    if only.as_deref().map(|o| o != *t).unwrap_or(false) {
+                        continue;
+                    }
                     let proj = &proj;
                     let scratch = &scratch;
                     let outcomes = &outcomes;
